@@ -265,19 +265,23 @@ fn judge_build(spec: &Spec, res: Result<Automaton, aws_smt_strings::errors::Erro
                 return false;
             }
             // the automaton implements exactly the caller's delta
-            match lockstep(spec, &a) {
+            let reached = match lockstep(spec, &a) {
                 WalkResult::Ok(map) => {
                     o.evals += map.len() as u64;
+                    map
                 }
                 WalkResult::Mismatch(m) => {
                     o.fail("C13/delta-differs-from-spec", format!("{}: {}", phase, m));
                     return false;
                 }
-            }
+            };
+            // state counts: every reachable label has its own state and no state is invented (a builder may or
+            // may not keep states that are unreachable from the initial one: the property does not say)
             let labels = spec.labels();
             let nfinal = view.values().filter(|v| v.is_final).count();
-            if a.num_states() != labels.len() || a.num_final_states() != nfinal {
-                o.fail("C13/counts", format!("{}: num_states = {} (labels mentioned: {}), num_final_states = {} (labels marked: {})", phase, a.num_states(), labels.len(), a.num_final_states(), nfinal));
+            let reached_final = reached.keys().filter(|l| view[*l].is_final).count();
+            if a.num_states() < reached.len() || a.num_states() > labels.len() || a.num_final_states() < reached_final || a.num_final_states() > nfinal {
+                o.fail("C13/counts", format!("{}: num_states = {} (labels mentioned: {}, reachable: {}), num_final_states = {} (labels marked: {}, reachable: {})", phase, a.num_states(), labels.len(), reached.len(), a.num_final_states(), nfinal, reached_final));
                 return false;
             }
             check_counts(&a, "built automaton", "C13/counts", o);
